@@ -37,7 +37,8 @@ def registry : List (String × (String → String)) :=
     ("tb", Tb.run),
     ("tbm", Tb.runModes),
     ("tbs", TbSim.run),
-    ("tbi", TbSim.checkInv) ]
+    ("tbi", TbSim.checkInv),
+    ("tbn", TbSim.runN) ]
 
 def find (name : String) : Option (String → String) :=
   (registry.find? (·.1 == name)).map (·.2)
